@@ -695,6 +695,8 @@ func (g *replayGen) goExpr(x ast.Expr, pkg *types.Package, ren map[string]string
 			case "f64frombits":
 				g.imports["math"] = "math"
 				return "math.Float64frombits(" + args[0] + ")"
+			case "haskey":
+				return "func() bool { _, ok := " + args[0] + "[" + args[1] + "]; return ok }()"
 			case "nonnil":
 				return "(" + args[0] + " != nil)"
 			case "feq":
